@@ -10,6 +10,7 @@ CONSTANTS
   RspData <- MCRspData
   MaxReq = 6
   MaxDrain = 3
+  Deviations = {}
 INVARIANTS ExactlyOnceRouting OwnerIsAddressRangeOwner PayloadPreserved RspToOriginator
            DrainAckOnlyWhenEmpty NoForwardWhilePaused DrainedNoOwnTraffic AllDrainedQuiet
 CHECK_DEADLOCK FALSE
